@@ -10,7 +10,7 @@
      (c) a probe answer Some v at l equals the value of the expression before every executed visit of l
          at which all scalars of the expression have been assigned by the function. *)
 From Coq Require Import ZArith List Bool NArith.
-From Falcon Require Import Base.Res IL.Const IL.Expr IL.Func IL.Loc Exec.Sem Flow.Constants.
+From Falcon Require Import Base.Res IL.Const IL.Expr IL.Func IL.Loc Exec.Sem Flow.FixedPoint Flow.Constants.
 Import ListNotations.
 Local Open Scope Z_scope.
 
@@ -25,6 +25,19 @@ Fixpoint lm_get (m : lmap) (l : floc) : option cmap :=
 Definition lmap_sub (a b : lmap) : bool :=
   forallb (fun kv : floc * cmap => match lm_get b (fst kv) with Some v => cmap_eqb (snd kv) v | None => false end) a.
 Definition lmap_eqb (a b : lmap) : bool := Nat.eqb (length a) (length b) && lmap_sub a b && lmap_sub b a.
+
+(* validator: every stored state IS the transfer of the join of its predecessors' states (as maps).
+   The engine only guarantees this up to Constants::partial_cmp = Equal, which is weaker. *)
+Definition exact_at (f : func) (m : list (floc * cmap)) (l : floc) (s : cmap) : bool :=
+  match backward f l with
+  | Ok ps => match FixedPoint.join_neighbours floc cmap floc_eqb c_join m ps with
+             | Ok sto => match c_trans f l sto with Ok new => cmap_eqb new s | _ => false end
+             | _ => false
+             end
+  | _ => false
+  end.
+Definition exact_solution (f : func) (m : list (floc * cmap)) : bool :=
+  forallb (fun kv : floc * cmap => exact_at f m (fst kv) (snd kv)) m.
 
 Definition CASE_MAX : nat := 3000.
 Definition TRACE_FUEL : nat := 48.
@@ -202,6 +215,8 @@ Definition probe_tie (obs : res lmap) (p : probe) : bool :=
 Definition ck (k : case) : bool * bool :=
   match k with
   | K f big mem envs obs probes da =>
-      (res_eqb lmap_eqb (constants_max CASE_MAX f) obs && forallb (probe_tie obs) probes && Bool.eqb (def_assigned f) da,
+      (res_eqb lmap_eqb (constants_max CASE_MAX f) obs && forallb (probe_tie obs) probes && Bool.eqb (def_assigned f) da &&
+       (* [V] the hypothesis of constants_sound_partial, validated on the model's own solution *)
+       (if def_assigned f then match constants_states CASE_MAX f with Ok m => exact_solution f m | _ => true end else true),
        c13_oracle f (List.map (fun en => mkst en (mkbmem big mem)) envs) obs probes)
   end.
